@@ -25,6 +25,23 @@ CLAIMS = {
         ref="3/C19"),
 }
 
+CLAIMS["C20"] = dict(
+    text="Bounded symbolic execution of the real write_ndarray scalar branch "
+         "as ONE inductive append step from an arbitrary consistent "
+         "pre-state (stored values real-or-NaN, summary attributes present "
+         "or absent, writer re-opened or not) plus composed multi-call "
+         "histories, the real H5ScalarEvent / ChildScalar summary readers "
+         "and the summary-completion loop of the real rtdc_copy/h5ds_copy; "
+         "z3 proves 'reported min/max/mean == NaN-ignoring min/max/mean of "
+         "all stored values' (exact real arithmetic) on every path.",
+    note="Trusted: z3, symx, the numpy/h5py shims (validated each run "
+         "against real numpy/h5py on concrete histories). Floats are exact "
+         "reals + NaN flag: rounding of the running mean, inf and integer "
+         "overflow are outside the claim.",
+    technique="symbolic execution of the real Python code objects + z3 "
+              "(LRA/NRA with NaN flags), inductive append step",
+    ref="3/C20")
+
 NOT_APPLICABLE = {
 }
 
